@@ -71,3 +71,14 @@ Print Assumptions C05_read.
 Print Assumptions C05_passthrough.
 Print Assumptions C05_matching.
 Print Assumptions C05_segmentation.
+
+(* ---- M3 (Conn/Sem3.v): the same for EVERY behaviour of the transport (free room following any schedule: writes accepted
+   in part, refused, never accepted again), every latency of localize(), every cancellation of a pending write or of a
+   pending missed-keep-alive verdict by the race.  Proofs in Conn/Sem3Proofs.v. ---- *)
+From Passage Require Import Lib.Bytes Codec.Desc Gen.PacketsGen Conn.Types Conn.Prog Conn.Sem1 Conn.Sem2 Conn.Sem3 Conn.Monitor Conn.Order Conn.Checks Conn.Switch Conn.Sem3Proofs.
+
+Theorem C05_switch_backpressure : forall o cfg e encf loclat cap sch s,
+  switch_ok (untime (trace_of (run3 o cfg e encf loclat cap sch s))) = true.
+Proof. exact run3_switch_ok. Qed.
+
+Print Assumptions C05_switch_backpressure.
